@@ -362,7 +362,11 @@ func (p *oracle) judge(i int, line string, q *request, res string, slot int, bef
 			return "wrongly-accepted"
 		}
 		if got != e.class {
-			run.Fail(i, "result:"+e.class, fmt.Sprintf("%s: expected refusal %s, got %s", what, e.class, res))
+			key := "result:" + e.class
+			if e.class == "invalid-name" {
+				key = "boardid-valid" // the validator let a malformed name through (it then failed later)
+			}
+			run.Fail(i, key, fmt.Sprintf("%s: expected refusal %s, got %s", what, e.class, res))
 		}
 		if d := sideEffects(before, now); len(d) > 0 {
 			run.Fail(i, "refused-sideeffect", fmt.Sprintf("%s: refused (%s) but %s", what, res, strings.Join(d, "; ")))
@@ -530,6 +534,29 @@ func (p *oracle) judge(i int, line string, q *request, res string, slot int, bef
 		return "accepted:" + path + ":hidden-postmask"
 	}
 	return "accepted:" + path
+}
+
+// judgeNewBM: ptttype.NewBM never crashes and writes the '/'-joined ids, as many (from the front) as fit into the
+// C string field.
+func (p *oracle) judgeNewBM(i int, line string, ids [][]byte, out string, bm *ptttype.BM_t) {
+	if out != "" {
+		run.Fail(i, "crash:newbm", fmt.Sprintf("ptttype.NewBM(%s): %s (%s)", dirNames(ids), out, hx.LastPanic))
+		return
+	}
+	var want []byte
+	for k, id := range ids {
+		add := cstrOf(pad(id, 13))
+		if k > 0 {
+			add = append([]byte{'/'}, add...)
+		}
+		if len(want)+len(add) > len(bm)-1 {
+			break
+		}
+		want = append(want, add...)
+	}
+	if !bytes.Equal(bm[:], pad(want, len(bm))) {
+		run.Fail(i, "newbm", fmt.Sprintf("ptttype.NewBM(%s) = %q, expected %q", dirNames(ids), cstrOf(bm[:]), want))
+	}
 }
 
 func recAt(f []byte, j int) []byte {
